@@ -1,17 +1,73 @@
 #!/usr/bin/env python3
-"""Apply a seeded change to /repo, run every quick check (no evidence written), undo it.
+"""Run every quick check (no evidence written) against /repo with a seeded change applied.
 
-usage: tools/run_seed.py <patch.diff> [Cxx ...]
+usage: tools/run_seed.py [--apply] <patch.diff> [Cxx ...]
 prints one line per property: HOLDS / VIOLATION (+ first finding) / ANALYSIS-ERROR
+
+default: the patch is applied to scratch copies of the touched files (outside /repo) and the patched texts are analysed as an
+         in-memory overlay on top of /repo's working tree - /repo itself is not touched, so several runs can go on at once
+--apply: `git -C /repo apply <patch>`, run, `git -C /repo checkout -- .`  (needed when the patch creates new modules)
 """
 import subprocess, sys, os, json
 HERE = os.path.dirname(os.path.dirname(os.path.abspath(__file__)))
 sys.path.insert(0, HERE)
 from sa.check import ALL, analyse
 
+def overlay_of(patch):
+    import tempfile, shutil
+    files = [l[6:].strip() for l in open(patch) if l.startswith("+++ b/")]
+    tmp = tempfile.mkdtemp(prefix="seedrun.")
+    try:
+        for rel in files:
+            src = os.path.join("/repo", rel)
+            if not os.path.exists(src):
+                return None
+            os.makedirs(os.path.dirname(os.path.join(tmp, rel)), exist_ok=True)
+            shutil.copy(src, os.path.join(tmp, rel))
+        r = subprocess.run(["git", "apply", patch], cwd=tmp, capture_output=True, text=True)
+        if r.returncode:
+            print("patch does not apply:", r.stderr)
+            return None
+        return {rel: open(os.path.join(tmp, rel), encoding="utf-8").read() for rel in files}
+    finally:
+        shutil.rmtree(tmp, ignore_errors=True)
+
+
+def report(props, out):
+    for p in props:
+        code, first = out[p]
+        tag = {0: "HOLDS", 1: "VIOLATION", 2: "ANALYSIS-ERROR"}[code]
+        if code:
+            print(f"{p}: {tag} {first}")
+    fired = [p for p in props if out[p][0] == 1]
+    print("fired:", fired or "none", "| broken:", [p for p in props if out[p][0] == 2] or "none")
+
+
+def run(props, overlay):
+    out = {}
+    for p in props:
+        try:
+            code, rep, _ = analyse(p, "/repo", "quick", quiet=True, overlay=dict(overlay))
+            v = rep.result.get("violations", [])
+            first = f"{v[0]['rule']} {v[0]['obligation']} at {v[0]['where']}: {v[0]['what'][:110]} :: {v[0]['construct'][:70]}" if v else ""
+            if code == 2:
+                first = "; ".join(l for l in rep.result.get("lines", []) if "ANALYSIS-ERROR" in l)[:260]
+            out[p] = (code, first)
+        except Exception as exc:
+            out[p] = (2, f"crash: {exc!r}")
+    return out
+
+
 def main():
-    patch = os.path.abspath(sys.argv[1])
-    props = sys.argv[2:] or ALL
+    args = [a for a in sys.argv[1:] if a != "--apply"]
+    patch = os.path.abspath(args[0])
+    props = args[1:] or ALL
+    if "--apply" not in sys.argv:
+        ov = overlay_of(patch)
+        if ov is not None:
+            report(props, run(props, ov))
+            return 0
+        print("falling back to --apply (new file or patch did not apply to copies)")
     st = subprocess.run(["git", "-C", "/repo", "status", "--porcelain"], capture_output=True, text=True).stdout.strip()
     if st:
         print("refusing: /repo working tree is not clean:\n" + st); return 3
